@@ -10,7 +10,8 @@ EXPLANATION = ('R11.2: for every well-formed class of the Unicode standard (all 
                'standard prescribes (Table 3-6 bit distribution, D91) and exactly the sequence is consumed - this decides lead-byte '
                'classification, length classes and the shift/mask constants at interval precision. R11.1: Transcode and the traits classes '
                'dispatch on code-unit width to the right codec, and the LE/BE wrappers apply the endianness adapters iff their endianness '
-               'differs from the native one. Not decided: per-scalar bit exactness inside an interval class.')
+               'differs from the native one. R11.3: text reaches the transcoder with its length - no view/string is built from a bare c_str()/data() pointer '
+               '(zero-expected rule with a positive example). Not decided: per-scalar bit exactness inside an interval class.')
 ASSUMPTIONS = ['interval precision: a defect that permutes values inside one class without changing its bounds is not visible',
                'raw-pointer instantiations stand for all iterator types']
 TRUSTED = ['clang 14 AST + constant evaluation', 'bsfacts', 'bsv/dtab.py + bsv/interval.py', 'spec/unicode_spec.py']
@@ -44,6 +45,8 @@ def run(prog, rep):
     rep.rule('R11.2', 'well-formed classes: emitted code-unit intervals and consumed length equal the Unicode standard (Table 3-6/3-7, D91) '
                       'for every class', floor=500)
     rep.rule('R11.1', 'width dispatch of Transcode / Utf16 / Utf32 and endianness adapters of the LE/BE traits', floor=20)
+    from rules import lengths
+    lengths.check(prog, rep, 'R11.3')
     K.check_utf8_decode(prog, rep, 'R11.2', None, None)
     K.check_encode_from32(prog, rep, 'R11.2', None, None)
     K.check_from16(prog, rep, 'R11.2', None, None)
